@@ -36,7 +36,11 @@ MANIFEST = {
             "of rendered well-formed pages renumbers exactly the pages of the serial; replace end to end (byte level C15_replace_spec, page "
             "level C15_replace_pages, by stream C15_replace_stream_view: other streams' pages byte-identical and in order, edited stream "
             "gapless from the first old page's number for fewer/equal/more new pages, first/continued on the first and last/complete on "
-            "the last new page); one slot iteration is proved equal to the regenerated _util.resize_bytes + seek + write (C11)",
+            "the last new page); one slot iteration is proved equal to the regenerated _util.resize_bytes + seek + write (C11). "
+            "_from_packets_try_preserve, for every old page run that to_packets accepts: with the old packets' lengths the pages returned "
+            "have the old layout page by page and reassemble to exactly the packets given (C15_try_preserve_same), otherwise the call is "
+            "from_packets(packets, old_pages[0].sequence) (C15_try_preserve_fallback); in every case the packets come back "
+            "(C15_try_preserve_roundtrip)",
     "note": "Model tied by correspondence (not regenerated). The model cannot exhibit: UnboundLocalError of `size` on an incomplete page "
             "without packets (returns 27); negative default_size (Python slices from the end); file-object faults during replace (C06/C19); "
             "find_last is modelled and corresponded but has no theorem. The replace theorems assume the pages between/after the old pages "
